@@ -210,6 +210,24 @@ def r1_r2(ctx):
     rb = [bi for bi, *_ in lookup_retains]
     r1.check(must_pass(b, [dbi], via_blocks=rb, via_edges=enr_branch), "every lookup answer passes the distance filter before discovered",
              "discovered|unfiltered", "records of a lookup answer can reach `discovered` without the distance filter", loc=b.loc(dt.line))
+    # partial answers are stored for later (and handed to `discovered` unfiltered by rpc_failure when the rest never arrives): they must
+    # have passed the same filter before they are stored
+    stores = [(bi, t) for bi, t in b.calls() if callee_matches(t, r"HashMap::<.*>::insert$", r"HashMap::insert$") and
+              fmt_short(prov.operand(t.args[0])) == "self.active_nodes_responses"]
+    if not stores:
+        raise AnchorError("handle_rpc_response: the store of a partial NODES answer was not found")
+    for bi, t in stores:
+        r1.check(must_pass(b, [bi], via_blocks=rb, via_edges=enr_branch), "a partial answer is stored only after the distance filter", "partial|stored-unfiltered",
+                 "records of an incomplete multi-packet answer are stored in active_nodes_responses before the distance filter (and the ban for off-distance "
+                 "records) ran: if the remaining packets never arrive, rpc_failure hands the stored records to `discovered` as they are", loc=b.loc(t.line))
+    rf = facts.one(re.escape(SV) + "rpc_failure")
+    r1.analysed(rf)
+    pf = Prov(rf, facts)
+    for bi, t in rf.calls():
+        if (t.callee() or "") == SV + "discovered":
+            src = fmt_short(pf.operand(t.args[2]))
+            r1.check("HashMap::remove(self.active_nodes_responses" in src and src.endswith(".received_nodes"), "rpc_failure hands `discovered` exactly the stored partial answer",
+                     "partial|timeout-source", "rpc_failure hands `discovered` %s" % src[:200], loc=rf.loc(t.line))
     # ---- R2
     gb, may0 = generator_may_emit_zero(facts)
     wb, own, _ = writer_sends_own_record_on_zero(facts)
